@@ -113,6 +113,75 @@ class _Subst(ast.NodeTransformer):
 
 # ------------------------------------------------------------------------------------------------ 1. inlining
 
+def _const_truth(e):
+    """True/False if e is a constant expression after folding, else None"""
+    if isinstance(e, ast.Constant):
+        return bool(e.value)
+    if isinstance(e, ast.UnaryOp) and isinstance(e.op, ast.Not):
+        t = _const_truth(e.operand)
+        return None if t is None else not t
+    return None
+
+
+class _Fold(ast.NodeTransformer):
+    def visit_IfExp(self, n):
+        self.generic_visit(n)
+        t = _const_truth(n.test)
+        return n if t is None else (n.body if t else n.orelse)
+
+    def visit_UnaryOp(self, n):
+        self.generic_visit(n)
+        t = _const_truth(n) if isinstance(n.op, ast.Not) else None
+        return n if t is None else ast.copy_location(ast.Constant(t), n)
+
+    def visit_BoolOp(self, n):
+        self.generic_visit(n)
+        vals = []
+        for v in n.values:
+            t = _const_truth(v)
+            if t is None:
+                vals.append(v)
+            elif isinstance(n.op, ast.And) and not t:
+                vals.append(v)
+                break
+            elif isinstance(n.op, ast.Or) and t:
+                vals.append(v)
+                break
+            # a neutral constant (True in `and`, False in `or`) is dropped unless it is the last operand (it is then the value)
+            elif v is n.values[-1]:
+                vals.append(v)
+        if len(vals) == 1:
+            return vals[0]
+        n.values = vals
+        return n
+
+
+def _fold_block(stmts):
+    out = []
+    for st in stmts:
+        st = _Fold().visit(st)
+        if isinstance(st, ast.If):
+            t = _const_truth(st.test)
+            st.body = _fold_block(st.body)
+            st.orelse = _fold_block(st.orelse)
+            if t is True:
+                out.extend(st.body)
+                continue
+            if t is False:
+                out.extend(st.orelse)
+                continue
+        else:
+            for field in ("body", "orelse", "finalbody"):
+                blk = getattr(st, field, None)
+                if isinstance(blk, list) and blk and isinstance(blk[0], ast.stmt):
+                    setattr(st, field, _fold_block(blk) or [ast.Pass()])
+            if isinstance(st, ast.Try):
+                for h in st.handlers:
+                    h.body = _fold_block(h.body) or [ast.Pass()]
+        out.append(st)
+    return out
+
+
 class _Helper:
     def __init__(self, node, cls: str | None, kind: str):
         self.node, self.cls, self.kind = node, cls, kind            # kind: method / static / classmethod / function
@@ -155,6 +224,8 @@ class Inliner:
     def __init__(self, tree: ast.Module, known: set[str]):
         self.tree = tree
         self.helpers: dict[tuple[str | None, str], _Helper] = {}
+        self.local_helpers: dict[str, _Helper] = {}       # new closures nested in the function being rewritten
+        self.known = known
         self.count = 0
         for st in tree.body:
             if isinstance(st, (ast.FunctionDef, ast.AsyncFunctionDef)) and st.name not in known and _eligible(st):
@@ -187,7 +258,7 @@ class Inliner:
             return None, None
         f = call.func
         if isinstance(f, ast.Name):
-            h = self.helpers.get((None, f.id))
+            h = self.local_helpers.get(f.id) or self.helpers.get((None, f.id))
             return (h, None) if h else (None, None)
         if isinstance(f, ast.Attribute) and isinstance(f.value, ast.Name):
             recv = f.value.id
@@ -264,6 +335,8 @@ class Inliner:
                 rename[name] = name + "_inl"
         sub = _Subst(mapping, rename)
         body = [sub.visit(s) for s in body]
+        if any(isinstance(v, ast.Constant) for v in mapping.values()):
+            body = _fold_block(body)            # a flag parameter bound to a constant selects one branch of the merged helper
         return pre, body
 
     # ---- return elimination
@@ -325,6 +398,8 @@ class Inliner:
             last = tail and i == len(stmts) - 1
             new = self._rewrite_stmt(st, cls, caller, last)
             out.extend(x for x in new if not _self_assign(x))
+        if stmts and not out:
+            out.append(ast.copy_location(ast.Pass(), stmts[0]))
         return out
 
     def _caller_names(self, caller) -> set[str]:
@@ -593,8 +668,24 @@ class Inliner:
         return False
 
     def _rewrite_func(self, fn, cls):
+        # a NEW closure defined directly in fn's body and only ever called there is inlined like a helper: it reads fn's locals at call
+        # time, exactly what the inlined statements do (closures that rebind outer names - nonlocal - are not eligible)
+        qual = f"{cls + '.' if cls else ''}{fn.name}"
+        self.local_helpers = {}
+        for st in fn.body:
+            if isinstance(st, (ast.FunctionDef, ast.AsyncFunctionDef)) and f"{qual}.{st.name}" not in self.known and _eligible(st) \
+                    and not st.decorator_list:
+                callee_ids = {id(x.func) for x in ast.walk(fn) if isinstance(x, ast.Call)}
+                escapes = any(isinstance(x, ast.Name) and x.id == st.name and isinstance(x.ctx, ast.Load) and id(x) not in callee_ids for x in ast.walk(fn))
+                stores_outer = False
+                if not escapes and not stores_outer:
+                    self.local_helpers[st.name] = _Helper(st, None, "function")
         # nested functions (decorator wrappers etc.) are rewritten with themselves as the caller
         fn.body = self._rewrite_block(fn.body, cls, fn, True)
+        for name, h in self.local_helpers.items():
+            if h.inlined and not h.failed and not any(isinstance(x, ast.Call) and isinstance(x.func, ast.Name) and x.func.id == name for x in ast.walk(fn)):
+                fn.body = [s for s in fn.body if s is not h.node] or [ast.Pass()]
+        self.local_helpers = {}
         for x in fn.body:
             for sub in ast.walk(x):
                 if isinstance(sub, (ast.FunctionDef, ast.AsyncFunctionDef)) and sub is not fn:
@@ -808,3 +899,75 @@ def _find_assign(fn, target_name_node):
                 for h in st.handlers:
                     stack.append(h.body)
     return None
+
+
+# ------------------------------------------------------------------------------------------------ walrus hoisting
+
+def _first_evaluated_walrus(test):
+    """the NamedExpr that is evaluated first and unconditionally when `test` is evaluated, else None"""
+    e = test
+    while True:
+        if isinstance(e, ast.NamedExpr):
+            return e
+        if isinstance(e, ast.UnaryOp):
+            e = e.operand
+        elif isinstance(e, ast.Compare):
+            e = e.left
+        elif isinstance(e, ast.BoolOp):
+            e = e.values[0]
+        elif isinstance(e, ast.Attribute):
+            e = e.value
+        elif isinstance(e, ast.Subscript):
+            e = e.value
+        elif isinstance(e, ast.Call) and isinstance(e.func, ast.Attribute):
+            e = e.func.value
+        else:
+            return None
+
+
+class _ReplaceNode(ast.NodeTransformer):
+    def __init__(self, old, new):
+        self.old, self.new = old, new
+
+    def visit(self, node):
+        if node is self.old:
+            return self.new
+        return self.generic_visit(node)
+
+
+def hoist_walrus(tree: ast.Module) -> int:
+    """`if (x := E) is not None:` -> `x = E` followed by `if x is not None:` (same evaluation order, same binding)"""
+    n = 0
+
+    def block(stmts):
+        nonlocal n
+        out = []
+        for st in stmts:
+            for field in ("body", "orelse", "finalbody"):
+                blk = getattr(st, field, None)
+                if isinstance(blk, list) and blk and isinstance(blk[0], ast.stmt):
+                    setattr(st, field, block(blk))
+            if isinstance(st, ast.Try):
+                for h in st.handlers:
+                    h.body = block(h.body)
+            target = None
+            if isinstance(st, ast.If):
+                target = "test"
+            elif isinstance(st, (ast.Return, ast.Expr, ast.Assign)) and st.value is not None:
+                target = "value"
+            while target is not None:
+                w = _first_evaluated_walrus(getattr(st, target))
+                if w is None or not isinstance(w.target, ast.Name):
+                    break
+                out.append(ast.copy_location(ast.Assign([ast.Name(w.target.id, ast.Store())], w.value), st))
+                setattr(st, target, _ReplaceNode(w, ast.copy_location(ast.Name(w.target.id, ast.Load()), w)).visit(getattr(st, target)))
+                n += 1
+            out.append(st)
+        return out
+
+    for node in ast.walk(tree):
+        if isinstance(node, (ast.FunctionDef, ast.AsyncFunctionDef)):
+            node.body = block(node.body)
+    if n:
+        ast.fix_missing_locations(tree)
+    return n
